@@ -83,7 +83,7 @@ def main():
     finally:
         sh(f"git -C /repo worktree remove --force {wt}")
         # regenerate Gen/ from the real tree
-        sh("python3 tools/extract.py", cwd=VERIF)
+        sh("flock lean/.lake/verif.lock python3 tools/extract.py", cwd=VERIF)
 
 
 if __name__ == "__main__":
